@@ -37,19 +37,48 @@ macro_rules! codec_harness {
             assert!(<$Fx>::from_le_bytes(bytes).to_le_bytes() == bytes);
             assert!(<$Fx>::from_be_bytes(bytes).to_be_bytes() == bytes);
             assert!(<$Fx>::from_le_bytes(bytes).to_bits() == <$T>::from_le_bytes(bytes));
+            // the same views through the `Fixed` trait (generic code reaches them this way; seed C10-D)
+            assert!(<$Fx as substrate_fixed::traits::Fixed>::to_le_bytes(x) == b.to_le_bytes());
+            assert!(<$Fx as substrate_fixed::traits::Fixed>::to_be_bytes(x) == b.to_be_bytes());
+            assert!(<$Fx as substrate_fixed::traits::Fixed>::to_ne_bytes(x) == b.to_ne_bytes());
+            assert!(<$Fx as substrate_fixed::traits::Fixed>::from_le_bytes(bytes).to_bits() == <$T>::from_le_bytes(bytes));
+            assert!(<$Fx as substrate_fixed::traits::Fixed>::from_be_bytes(bytes).to_bits() == <$T>::from_be_bytes(bytes));
+            assert!(<$Fx as substrate_fixed::traits::Fixed>::from_ne_bytes(bytes).to_bits() == <$T>::from_ne_bytes(bytes));
+            assert!(<$Fx as substrate_fixed::traits::Fixed>::to_bits(x) == b && <$Fx as substrate_fixed::traits::Fixed>::from_bits(b) == x);
         }
     };
 }
+// per family: a fractional-bit count that is not a multiple of 8 (or the historical alias), plus (thorough) Frac = 0 and Frac = width
 codec_harness!(codec_i8, FixedI8<U3>, i8, 1);
-codec_harness!(codec_u8, FixedU8<U8>, u8, 1);
-codec_harness!(codec_i16, FixedI16<U0>, i16, 2);
+codec_harness!(codec_i8_f0, FixedI8<U0>, i8, 1);
+codec_harness!(codec_i8_fw, FixedI8<U8>, i8, 1);
+codec_harness!(codec_u8, FixedU8<U5>, u8, 1);
+codec_harness!(codec_u8_f0, FixedU8<U0>, u8, 1);
+codec_harness!(codec_u8_fw, FixedU8<U8>, u8, 1);
+codec_harness!(codec_i16, FixedI16<U9>, i16, 2);
+codec_harness!(codec_i16_f0, FixedI16<U0>, i16, 2);
+codec_harness!(codec_i16_fw, FixedI16<U16>, i16, 2);
 codec_harness!(codec_u16, FixedU16<U11>, u16, 2);
+codec_harness!(codec_u16_f0, FixedU16<U0>, u16, 2);
+codec_harness!(codec_u16_fw, FixedU16<U16>, u16, 2);
 codec_harness!(codec_i32, FixedI32<U23>, i32, 4);
-codec_harness!(codec_u32, FixedU32<U32>, u32, 4);
+codec_harness!(codec_i32_f0, FixedI32<U0>, i32, 4);
+codec_harness!(codec_i32_fw, FixedI32<U32>, i32, 4);
+codec_harness!(codec_u32, FixedU32<U17>, u32, 4);
+codec_harness!(codec_u32_f0, FixedU32<U0>, u32, 4);
+codec_harness!(codec_u32_fw, FixedU32<U32>, u32, 4);
 codec_harness!(codec_i64, FixedI64<U1>, i64, 8);
+codec_harness!(codec_i64_f0, FixedI64<U0>, i64, 8);
+codec_harness!(codec_i64_fw, FixedI64<U64>, i64, 8);
 codec_harness!(codec_u64, FixedU64<U40>, u64, 8);
+codec_harness!(codec_u64_f0, FixedU64<U0>, u64, 8);
+codec_harness!(codec_u64_fw, FixedU64<U64>, u64, 8);
 codec_harness!(codec_i128, FixedI128<U64>, i128, 16);
+codec_harness!(codec_i128_f0, FixedI128<U0>, i128, 16);
+codec_harness!(codec_i128_fw, FixedI128<U128>, i128, 16);
 codec_harness!(codec_u128, FixedU128<U127>, u128, 16);
+codec_harness!(codec_u128_f0, FixedU128<U0>, u128, 16);
+codec_harness!(codec_u128_fw, FixedU128<U128>, u128, 16);
 
 // the fractional-bit count never changes the encoding
 #[cfg(kani)]
